@@ -16,6 +16,7 @@ type Env struct {
 	old   *State // state at function entry / before the call
 	pkg   *types.Package
 	pkgPath string
+	inst  string // when set: hypothesis-position universal quantifiers are instantiated at this term
 	pol   int // +1: evaluating a proof goal positively, -1: negatively, 0: assumption / unknown
 	what  string
 }
@@ -561,9 +562,18 @@ func (env *Env) evalCall(e CallE) *SV {
 			}
 			return ghostBool(or(parts...))
 		}
+		if env.inst != "" && ((e.Fn == "all" && env.pol < 0) || (e.Fn == "any" && env.pol > 0)) {
+			body := env.with(id.Name, ghostBV(64, true, env.inst)).evalBool(e.Args[3])
+			rng := and(app("bvsle", env.toBV64(lo), env.inst), app("bvslt", env.inst, env.toBV64(hi)))
+			if e.Fn == "all" {
+				return ghostBool(implies(rng, body))
+			}
+			return ghostBool(and(rng, body))
+		}
 		if (e.Fn == "all" && env.pol > 0) || (e.Fn == "any" && env.pol < 0) {
 			// goal position: replace the bound variable by a fresh constant
 			sk := vc.freshS(SBV64, "sk_"+id.Name)
+			defer vc.instantiateHyps(sk)
 			body := env.with(id.Name, ghostBV(64, true, sk)).evalBool(e.Args[3])
 			rng := and(app("bvsle", env.toBV64(lo), sk), app("bvslt", sk, env.toBV64(hi)))
 			if e.Fn == "all" {
@@ -689,4 +699,103 @@ func sortFromSMT(s string) (Sort, bool) {
 		return sRowBytes, true
 	}
 	return 0, false
+}
+
+func hasQuant(e Expr) bool {
+	switch x := e.(type) {
+	case CallE:
+		if x.Fn == "all" || x.Fn == "any" {
+			if len(x.Args) == 4 {
+				_, lok := x.Args[1].(Num)
+				_, hok := x.Args[2].(Num)
+				if lok && hok {
+					return false
+				}
+			}
+			return true
+		}
+		for _, a := range x.Args {
+			if hasQuant(a) {
+				return true
+			}
+		}
+	case Unary:
+		return hasQuant(x.X)
+	case Binary:
+		return hasQuant(x.X) || hasQuant(x.Y)
+	case IndexE:
+		return hasQuant(x.X) || hasQuant(x.I)
+	case FieldE:
+		return hasQuant(x.X)
+	}
+	return false
+}
+
+// assumeClause assumes guard => e (e evaluated as a hypothesis). If e contains
+// a universal quantifier, a generator is recorded so that the hypothesis can be
+// instantiated at the skolem constants of later goals.
+func (env *Env) assumeClause(guard string, e Expr) {
+	vc := env.vc
+	h := env.withPol(-1)
+	vc.assume(implies(guard, h.evalBool(e)))
+	if !env.quantThroughMacros(e) {
+		return
+	}
+	snap := *h
+	snap.st = env.st.clone()
+	if env.old != nil {
+		snap.old = env.old.clone()
+	}
+	names := map[string]*SV{}
+	for k, v := range env.names {
+		names[k] = v
+	}
+	snap.names = names
+	vc.hyps = append(vc.hyps, func(inst string) string {
+		i := snap
+		i.inst = inst
+		return implies(guard, i.evalBool(e))
+	})
+}
+
+func (env *Env) quantThroughMacros(e Expr) bool {
+	if hasQuant(e) {
+		return true
+	}
+	found := false
+	var walk func(Expr)
+	walk = func(x Expr) {
+		switch y := x.(type) {
+		case CallE:
+			if env.pkg != nil && env.pkgPath == "" {
+				env.pkgPath = env.pkg.Path()
+			}
+			if m, ok := env.vc.eng.contracts.Macros[env.pkgPath+"::"+y.Fn]; ok && hasQuant(m.E) {
+				found = true
+			}
+			for _, a := range y.Args {
+				walk(a)
+			}
+		case Unary:
+			walk(y.X)
+		case Binary:
+			walk(y.X)
+			walk(y.Y)
+		}
+	}
+	walk(e)
+	return found
+}
+
+// instantiateHyps adds the instances of all recorded quantified hypotheses at
+// the skolem constant sk.
+func (vc *VC) instantiateHyps(sk string) {
+	if vc.instantiating {
+		return
+	}
+	vc.instantiating = true
+	defer func() { vc.instantiating = false }()
+	for _, g := range vc.hyps {
+		vc.assume(g(sk))
+	}
 }
